@@ -72,7 +72,7 @@ def _sweep_one(t):
 
 
 def check(run):
-    run.deductive(PC.MODULES)
+    PC.deductive(run)
     reads = threshold_reads()
     # in Balancer: one read to pass it to predict, and (since the cache fix) one read for the cache key
     bal = sorted(r[0] for r in reads if r[0].startswith("balancing.py"))
